@@ -40,6 +40,12 @@ CHECKS = {
         technique="contracts on the real nn.Modules discharged with symbolic shapes (FakeTensorMode/ShapeEnv -> z3, all B,H,W); AST taint analysis for the no-detach frame condition; gradcheck as bounded stand-in",
         engine="vk-E3-symshape",
     ),
+    "C12": dict(
+        text="With torch.rand_like replaced by its contract (fresh independent symbols in [0,1), universally quantified), the real forward() of the three binary channels is executed on symbolic inputs over each alphabet, a symbolic probability p in [0,1] and symbolic draws, all paths: BSC y_i = x_i xor [u_i<p]; BEC y_i = erasure if u_i<p else x_i; Z-channel 0 stays 0 and 1 -> [not u<p] with exactly one draw per one; alphabet preservation, p=0 identity, p=1 extreme, per-position dependence, input unmodified - discharged for all x, p, u per dtype/shape/alphabet configuration. The distributional statement follows by the moment lemma from the proved per-element law.",
+        note="Assumed (never proved): torch.rand_like yields independent uniform variates. Shapes up to 4 elements (the law is per element and the obligation shows each output depends on its own input and draw only).",
+        design="7/C12",
+        technique=E2 + "; RNG replaced by its contract (fresh quantified symbols)",
+    ),
 }
 
 NOT_YET = {}
